@@ -90,6 +90,16 @@ impl Selector {
         let epoll = &single_selector.epoll;
 
         // Wait for epoll events for at most timeout_ms milliseconds
+        #[cfg(may_verif)]
+        let timeout_ms = {
+            use std::os::fd::AsRawFd;
+            let ms: i32 = timeout_ms.into();
+            if crate::verif::pre_epoll(epoll.0.as_raw_fd(), ms as i64) {
+                EpollTimeout::ZERO
+            } else {
+                timeout_ms
+            }
+        };
         let n = epoll.wait(events, timeout_ms)?;
         // println!("epoll_wait = {}", n);
 
